@@ -122,7 +122,7 @@ def coq_eval_lists(out):
     '= ... : type' block), whitespace-normalised."""
     res = []
     for m in re.finditer(r'^\s*= (.*?)\n\s*: ', out, re.S | re.M):
-        res.append(re.sub(r'%(positive|N|Z|nat)\b', '', ' '.join(m.group(1).split())))
+        res.append(re.sub(r'%(positive|N|Z|nat)\b', '', ' '.join(m.group(1).split())).replace('( ', '(').replace(' )', ')'))
     return res
 
 
@@ -140,7 +140,7 @@ def print_assumptions(out):
     """Summarise `Print Assumptions` output blocks found in coqc output."""
     res = []
     for m in re.finditer(r'(Closed under the global context|Axioms:\n(?:.+\n?)+)', out):
-        res.append(re.sub(r'%(positive|N|Z|nat)\b', '', ' '.join(m.group(1).split())))
+        res.append(re.sub(r'%(positive|N|Z|nat)\b', '', ' '.join(m.group(1).split())).replace('( ', '(').replace(' )', ')'))
     return res
 
 
